@@ -96,8 +96,12 @@ def run(ctx):
         rl = None
         ctx.notes.append("record-layer model not present in this tree")
     if mods:
-        ctx.prove(list(dict.fromkeys(mods + list(getattr(rl, "PROVE_MODULES", [])))))
-        ctx.require_theorems(getattr(rl, "THEOREMS", THEOREMS))
+        import extract
+        ctx.gen_tables = extract.all_tables()      # C01Suites is proved over the table regenerated from the source
+        ctx.prove(list(dict.fromkeys(mods + ["TLX.Props.C01Suites"] + list(getattr(rl, "PROVE_MODULES", [])))))
+        ctx.require_theorems(list(getattr(rl, "THEOREMS", THEOREMS)) + [
+            "TLX.Props.C01Suites.table_covered", "TLX.Props.C01Suites.every_table_suite_has_proved_class",
+            "TLX.Props.C01Suites.table_suite_cipher_type_known"])
         rl.run_reclayer(ctx)
     explore(ctx)
     return ctx.finish(search=lambda c: explore(c, scale=3))
